@@ -281,6 +281,7 @@ func runC02(c *explore.Ctx) {
 		mergeSweep(c, 3, 4, 2, mergeCfgsQuick[:1], check)
 	} else {
 		mergeSweep(c, 2, 6, 2, mergeCfgsQuick, check)
+		mergeSweep(c, 3, 4, 1, mergeCfgsQuick[:1], check)
 	}
 	largeMerges(c, check)
 }
